@@ -27,7 +27,7 @@ HISTORIES = ['bypass', 'imm_ok', 'veto_ok', 'veto_lose', 'lose_after', 'win', 'l
 def cases(tier, seed):
     rng = random.Random(13000 + seed)
     out = []
-    n = 80 if tier == 'quick' else 2400
+    n = 80 if tier == 'quick' else 6000
     for layer in ('j1939-21', 'j1939-22'):
         for h in HISTORIES:
             for aac in (0, 1):
